@@ -22,7 +22,7 @@ CACHED = ["nodes_by_name", "links", "in_links", "links_by_name", "nodes_by_link"
           "origins_by_node", "destinations", "destinations_by_name", "destinations_by_node"]
 
 
-# "distinct": the nodes are called A, B, C;  "shared": node C carries the name "A" as well (two different node objects
+# "distinct": the nodes are called A, B, C and the network is a plain Network;  "shared": node C carries the name "A" as well (two different node objects
 # may be given the same name by a user, exactly as the links L1 and L1b; they remain two nodes of the graph)
 NODE_NAMING = "distinct"
 
@@ -38,6 +38,12 @@ class Universe:
         import sym_metanet as M
 
         self.M = M
+
+        class CorridorNetwork(M.Network):
+            """what a user may write: a subclass that adds nothing to the construction API"""
+
+        # in the "shared" configuration the network moreover is an instance of a user subclass of Network
+        self.Network = CorridorNetwork if NODE_NAMING == "shared" else M.Network
         self.nodes = {k: M.Node(name=("A" if (k == "C" and NODE_NAMING == "shared") else k)) for k in "ABC"}
         mk = lambda nm: M.Link(1, 2, 1.0, 180, 30, 100, 1.8, name=nm)
         self.links = {"L1": mk("L1"), "L2": mk("L2"), "L1b": mk("L1")}  # L1b: a different link object that carries the name "L1"
@@ -278,7 +284,7 @@ PRE_BITS = ["hasA", "hasB", "AB_L1", "BA_L2", "O1_at_A", "D1_at_B"]
 
 def build_pre(U, bits):
     """pre-state from concrete bits -> (net, model). Built with the public API in a fixed order."""
-    net = U.M.Network(name="pre")
+    net = U.Network(name="pre")
     m = Model()
     if bits["hasA"]:
         net.add_node(U.nodes["A"])
